@@ -14,8 +14,9 @@ Obligations
 P_impl       the invariant / symmetry+nesting / well-formedness predicates evaluated on the IMPLEMENTATION's own output:
              in-process states, and `cppcheck --dump` files parsed with a strict XML parser and with addons/cppcheckdata.py
 """
-import os, re, sys, json
+import os, re, sys, json, zlib
 from .. import core, build_repo
+from . import c14_dump, c14_writers
 
 ID = "C14"
 LEVEL = "other"
@@ -39,8 +40,8 @@ MODULES = ["Cppcheck.Props.C14"]
 # ---- generators ------------------------------------------------------------------------------------
 
 def gen_ast(rng, with_pa):
-    n = rng.choice([2, 3, 3, 4, 4, 5, 6, 7, 9])
-    m = rng.choice([4, 8, 12, 20, 30, 45])
+    n = rng.choice([2, 3, 4, 5, 6, 7, 9, 12, 16, 24])
+    m = rng.choice([4, 8, 12, 20, 30, 45, 70])
     ops = []
     for _ in range(m):
         r = rng.random()
@@ -109,10 +110,10 @@ def gen_links(rng):
             toks.append(rng.choice(["(x", "[[", "{}", ")a", "]]", "}}", "[]"]))     # only str()[0] is looked at
         else:
             toks.append(rng.choice(["x", ",", "+"]))
-    while stack and rng.random() < 0.85:
+    while stack and rng.random() < 0.93:
         toks.append(")}]"[stack.pop()])
     # mutations: swap / delete / replace
-    for _ in range(rng.choice([0, 0, 0, 1, 1, 2])):
+    for _ in range(rng.choice([0, 0, 0, 0, 0, 1, 1, 2])):
         if not toks:
             break
         j = rng.randrange(len(toks))
@@ -248,6 +249,17 @@ def inprocess(ctx, res, drv, exe, thorough):
     for k, idxs in by.items():
         core.correspond(ctx, res, k, [ops[i] for i in idxs], [impl[i] for i in idxs], [model[i] for i in idxs], nontrivial=nontrivial)
 
+    # the reference reader `unescape` of the Lean model against a real XML parser (expat), on the escaped strings
+    xops = [o for o in ops if o.startswith("toxml ")]
+    rcx, xmodel, errx = core.run_lines(drv, [], ["toxmlx " + o.split(" ")[1] for o in xops], timeout=900)
+    ximpl = []
+    for o in xops:
+        ok, val = xml_attr_roundtrip(core.unhx(impl[ops.index(o)]))
+        ximpl.append(core.hx(val.encode("latin-1", "replace")) if ok and val is not None else "malformed")
+    core.correspond(ctx, res, "reader-vs-expat", xops, ximpl, [m.split(" ")[1] if len(m.split(" ")) == 3 else m for m in xmodel],
+                    nontrivial=lambda op, out: "26" in op.split(" ")[1] or nontrivial(op, out))
+    del res.samples[8:]
+
     # ---- P_impl on the implementation's output ----------------------------------------------------
     for i, (op, out) in enumerate(zip(ops, impl)):
         kind, info = meta[i]
@@ -288,16 +300,409 @@ def inprocess(ctx, res, drv, exe, thorough):
                 res.violation("id_string_i(%d) = %r" % (info, out), dict(kind="id", op=op, out=out), concrete=True, key=None)
 
 
+# ---- translators ---------------------------------------------------------------------------------
+
+def t_callers(ctx, res):
+    """the pointer fields are written only inside the three setters, and astParent(Token*) is called only by astOperand1/2"""
+    import glob
+    bad, sites = [], 0
+    for f in sorted(glob.glob(os.path.join(core.REPO, "lib", "*.cpp")) + glob.glob(os.path.join(core.REPO, "lib", "*.h")) +
+                    glob.glob(os.path.join(core.REPO, "cli", "*.cpp")) + glob.glob(os.path.join(core.REPO, "frontend", "*.cpp"))):
+        base = os.path.basename(f)
+        src = c14_writers.strip_comments(open(f, encoding="utf-8", errors="replace").read())
+        for m in re.finditer(r"\bastParent\s*\(\s*[^)\s]", src):
+            line = src.count("\n", 0, m.start()) + 1
+            text = src[src.rfind("\n", 0, m.start()) + 1:src.find("\n", m.start())].strip()
+            sites += 1
+            ok = (base == "token.cpp" and text in ("void Token::astParent(Token* tok)", "mImpl->mAstOperand1->astParent(nullptr);",
+                                                   "mImpl->mAstOperand2->astParent(nullptr);", "tok->astParent(this);")) or \
+                 (base == "token.h" and text == "void astParent(Token* tok);")
+            if not ok:
+                bad.append("%s:%d: %s" % (base, line, text))
+        for m in re.finditer(r"\bmAst(Parent|Operand1|Operand2)\s*=[^=]", src):
+            line = src.count("\n", 0, m.start()) + 1
+            text = src[src.rfind("\n", 0, m.start()) + 1:src.find("\n", m.start())].strip()
+            sites += 1
+            ok = base == "token.cpp" and text in ("parent->mImpl->mAstOperand1 = nullptr;", "parent->mImpl->mAstOperand2 = nullptr;",
+                                                  "mImpl->mAstParent = tok;", "mImpl->mAstOperand1 = tok;", "mImpl->mAstOperand2 = tok;")
+            if not ok:
+                bad.append("%s:%d: %s" % (base, line, text))
+    res.extra["ast_pointer_write_sites"] = sites
+    res.oblig("T-callers:ast-pointers-written-only-by-the-setters", not bad and sites >= 11, "translation",
+              "" if not bad and sites >= 11 else "unexpected writer of an AST pointer / caller of astParent(Token*) (sites=%d): %s" % (sites, bad[:5]))
+    return bad
+
+
+def t_writers(ctx, res):
+    try:
+        writers, unknown, missing = c14_writers.scan(core.REPO)
+    except Exception as ex:
+        res.oblig("T-writers:dump-attribute-writers", False, "translation", "scanner failed: %r" % ex)
+        return []
+    raw = [(f, a, e) for (f, a, e, k) in writers if k == "RAW"]
+    new_raw = [r for r in raw if r not in c14_writers.EXPECTED_RAW]
+    kinds = {}
+    for (_f, _a, _e, k) in writers:
+        kinds[k] = kinds.get(k, 0) + 1
+    res.extra["dump_writers_by_kind"] = kinds
+    res.extra["dump_raw_writers"] = ["%s: %s=\"<%s>\"  -- %s" % (f, a, e, c14_writers.EXPECTED_RAW.get((f, a, e), "NEW")) for (f, a, e) in raw]
+    ok = not unknown and not missing and not new_raw and kinds.get("toxml", 0) >= 20 and kinds.get("id", 0) >= 30
+    res.oblig("T-writers:dump-attribute-writers", ok, "translation",
+              "" if ok else "unknown shapes: %s | functions not found: %s | raw writers not in the reviewed list: %s" % (unknown[:4], missing, new_raw))
+    return new_raw
+
+
+# ---- CLI: dumps of corpus and generated programs ---------------------------------------------------
+
+_CD = []
+
+
+def load_cppcheckdata():
+    if not _CD:
+        import importlib.util
+        spec = importlib.util.spec_from_file_location("cppcheckdata_repo", os.path.join(core.REPO, "addons", "cppcheckdata.py"))
+        m = importlib.util.module_from_spec(spec)
+        spec.loader.exec_module(m)
+        _CD.append(m)
+    return _CD[0]
+
+
+def c_unescape(s):
+    out, i = [], 0
+    simple = {"n": "\n", "t": "\t", "\\": "\\", '"': '"', "'": "'", "0": "\0", "r": "\r", "a": "\a", "b": "\b", "f": "\f", "v": "\v", "?": "?"}
+    while i < len(s):
+        c = s[i]
+        if c == "\\" and i + 1 < len(s):
+            d = s[i + 1]
+            if d in simple:
+                out.append(simple[d]); i += 2
+            elif d == "x":
+                m = re.match(r"[0-9a-fA-F]{1,2}", s[i + 2:])
+                out.append(chr(int(m.group(0), 16)) if m else "x"); i += 2 + (len(m.group(0)) if m else 0)
+            else:
+                out.append(d); i += 2
+        else:
+            out.append(c); i += 1
+    return "".join(out)
+
+
+_SNIP = []
+
+
+def snippets():
+    """code strings of the repository's own unit tests (test/test*.cpp): adjacent string literals joined and unescaped"""
+    if _SNIP:
+        return _SNIP[0]
+    import glob
+    seen, out = set(), []
+    for f in sorted(glob.glob(os.path.join(core.REPO, "test", "test*.cpp"))):
+        src = open(f, encoding="utf-8", errors="replace").read()
+        for m in re.finditer(r'(?:"(?:[^"\\\n]|\\.)*"\s*){1,80}', src):
+            lits = re.findall(r'"((?:[^"\\\n]|\\.)*)"', m.group(0))
+            code = c_unescape("".join(lits))
+            if len(code) < 25 or len(code) > 3000 or (";" not in code and "{" not in code):
+                continue
+            if re.match(r"^\s*\[", code) or re.search(r"\((error|warning|style|performance|portability|information)[,)]", code) or "##" in code[:4]:
+                continue
+            if not re.search(r"[a-zA-Z_]\w*\s*[({=;]", code):
+                continue
+            if code in seen:
+                continue
+            seen.add(code)
+            lang = "c" if re.search(r"\.c\b\"|false\)|Standards::Language::C\b", src[m.end():m.end() + 80]) else "cpp"
+            out.append((os.path.basename(f), lang, code))
+    _SNIP.append(out)
+    return out
+
+
+IDS = ["a", "b", "x", "y", "p", "q", "n", "v", "buf", "T1", "U2"]
+STRS = ['"abc"', '"<a href=\\"x\\">&amp;</a>"', '"a\\tb\\n"', '"\\x01\\x7f"', '"caf\\xc3\\xa9"', '"\\xe9"', '"it\'s"', 'L"w<>"', '"]]>"', '"&#10;"',
+        "'<'", "'&'", "'\\''", "'\"'", "'\\0'"]
+
+
+def gen_expr(rng, d=0):
+    r = rng.random()
+    if d > 3 or r < 0.25:
+        return rng.choice(IDS + ["0", "1", "42", "0x1fU", "1.5f"] + STRS[:3])
+    if r < 0.45:
+        return "%s %s %s" % (gen_expr(rng, d + 1), rng.choice(["+", "-", "*", "<", ">", "<<", ">>", "&", "&&", "|", "==", "<=", "%", ","]), gen_expr(rng, d + 1))
+    if r < 0.55:
+        return "(%s)" % gen_expr(rng, d + 1)
+    if r < 0.65:
+        return "%s[%s]" % (rng.choice(IDS), gen_expr(rng, d + 1))
+    if r < 0.75:
+        return "%s(%s)" % (rng.choice(["f", "g", "h", "sizeof", "M"]), ", ".join(gen_expr(rng, d + 2) for _ in range(rng.choice([0, 1, 2, 3]))))
+    if r < 0.82:
+        return "%s ? %s : %s" % (gen_expr(rng, d + 1), gen_expr(rng, d + 1), gen_expr(rng, d + 1))
+    if r < 0.88:
+        return "(%s)%s" % (rng.choice(["int", "char*", "unsigned long", "T1", "u32"]), gen_expr(rng, d + 1))
+    if r < 0.93:
+        return "%s%s" % (rng.choice(["!", "-", "~", "*", "&", "++", "--"]), rng.choice(IDS))
+    return "%s.%s" % (rng.choice(IDS), rng.choice(["m", "size()", "v[0]"]))
+
+
+def gen_stmt(rng, cpp, d=0):
+    r = rng.random()
+    if d > 2 or r < 0.3:
+        return "%s = %s;" % (rng.choice(IDS), gen_expr(rng))
+    if r < 0.4:
+        return "if (%s) { %s } else { %s }" % (gen_expr(rng), gen_stmt(rng, cpp, d + 1), gen_stmt(rng, cpp, d + 1))
+    if r < 0.48:
+        return "for (int i = 0; i < %s; i++) { %s }" % (gen_expr(rng, 2), gen_stmt(rng, cpp, d + 1))
+    if r < 0.55:
+        return "while (%s) { %s break; }" % (gen_expr(rng, 2), gen_stmt(rng, cpp, d + 1))
+    if r < 0.62:
+        return "int arr%d[%s] = {%s};" % (rng.randrange(9), rng.choice(["3", "2+1", "N"]), ", ".join(gen_expr(rng, 3) for _ in range(3)))
+    if r < 0.68:
+        return "const char *s%d = %s;" % (rng.randrange(9), rng.choice(STRS))
+    if r < 0.74:
+        return "switch (%s) { case 1: %s break; default: break; }" % (gen_expr(rng, 2), gen_stmt(rng, cpp, d + 1))
+    if r < 0.8:
+        return "return %s;" % gen_expr(rng)
+    if cpp and r < 0.86:
+        return "std::vector<std::pair<int, std::vector<%s>>> w%d; w%d.push_back({});" % (rng.choice(["int", "T1", "char"]), rng.randrange(9), rng.randrange(9))
+    if cpp and r < 0.91:
+        return "auto l%d = [&](int k) { %s return k; };" % (rng.randrange(9), gen_stmt(rng, cpp, d + 1))
+    if cpp and r < 0.95:
+        return "S<%s> t%d; t%d.v = static_cast<%s>(%s);" % (rng.choice(["int", "A<B<int>>", "(1>2)"]), rng.randrange(9), rng.randrange(9), rng.choice(["int", "long"]), gen_expr(rng, 2))
+    return "{ %s %s }" % (gen_stmt(rng, cpp, d + 1), gen_stmt(rng, cpp, d + 1))
+
+
+def gen_program(rng):
+    cpp = rng.random() < 0.6
+    L = []
+    if rng.random() < 0.6:
+        L.append("#define M(x) ((x) %s 1)" % rng.choice(["+", "<<", "<", "&"]))
+    if rng.random() < 0.4:
+        L.append("#define N 3")
+    if rng.random() < 0.35:
+        L.append("#if defined(A) && (B < 3 || C > \"x\"[0])\nint cfgA;\n#elif defined(D)\nint cfgD;\n#else\nint cfg0;\n#endif")
+    L.append("typedef unsigned int u32;")
+    L.append("typedef struct tag%d { int m; int v[4]; } T1;" % rng.randrange(5))
+    if rng.random() < 0.5:
+        L.append("typedef int (*fp_t)(int, char *);")
+    if cpp:
+        L.append("#include <vector>")
+        L.append("template<class T> struct S { T v; T get() const { return v; } };")
+        L.append("template<class T> struct B { T b; }; template<class T> struct A { T a; };")
+        if rng.random() < 0.6:
+            L.append("namespace NS { using U2 = S<u32>; template<class T> using Vec = std::vector<T>; }")
+        if rng.random() < 0.5:
+            L.append("struct Base { virtual int f(int) { return 0; } virtual ~Base() {} }; struct Der : public Base { int f(int k) override { return k; } };")
+        if rng.random() < 0.4:
+            L.append("enum class E : char { e1 = '<', e2 = '&' };")
+    else:
+        L.append("typedef struct tagU { u32 m; } U2;")
+        L.append("enum E { e1 = '<', e2 };")
+    for k in range(rng.choice([1, 2, 3])):
+        L.append("int fn%d(int a, T1 *p, u32 n) {\n  int x = 0, y = 1; T1 b; U2 q;\n  %s\n  return x;\n}" %
+                 (k, "\n  ".join(gen_stmt(rng, cpp) for _ in range(rng.choice([2, 4, 6])))))
+    return ("cpp" if cpp else "c"), "\n".join(L) + "\n"
+
+
+def mutate(rng, code):
+    code = list(code)
+    for _ in range(rng.choice([1, 1, 2, 3])):
+        if not code:
+            break
+        j = rng.randrange(len(code))
+        m = rng.random()
+        if m < 0.35:
+            code[j] = rng.choice("(){}[]<>;,\"'&")
+        elif m < 0.65:
+            del code[j]
+        elif m < 0.85:
+            code.insert(j, rng.choice("(){}[]<>;"))
+        else:
+            k = rng.randrange(len(code))
+            code[j], code[k] = code[k], code[j]
+    return "".join(code)
+
+
+def locate_malformed(dump, text):
+    """which element holds the offending line of a malformed dump"""
+    m = re.search(r"line (\d+)", text)
+    if not m:
+        return "?"
+    try:
+        with open(dump, "rb") as f:
+            for k, line in enumerate(f, 1):
+                if k == int(m.group(1)):
+                    mm = re.match(rb"^\s*<([\w-]+)", line)
+                    return mm.group(1).decode() if mm else "?"
+    except OSError:
+        pass
+    return "?"
+
+
+def classify(key, text, dump):
+    if key == "xml-malformed":
+        el = locate_malformed(dump, text)
+        if el in ("library", "f"):
+            return "raw-writer-config-text", el
+        return "xml-malformed:" + el, el
+    return key, None
+
+
+def run_cases(ctx, res, cases, label):
+    """cases: dict(name, origin, lang, files={rel: bytes}, main, args). Runs cppcheck --dump and evaluates P_impl on every dump."""
+    import subprocess
+    cd = load_cppcheckdata()
+    root = os.path.join(ctx.tmp, "cli_" + label)
+    os.makedirs(root, exist_ok=True)
+    single, batch = [], []
+    for k, c in enumerate(cases):
+        (single if (c.get("args") or len(c["files"]) > 1) else batch).append((k, c))
+    jobs = []      # (cwd, argv, [(case index, dump path)])
+    B = 50
+    for b0 in range(0, len(batch), B):
+        d = os.path.join(root, "b%d" % (b0 // B))
+        os.makedirs(d)
+        ent = []
+        for k, c in batch[b0:b0 + B]:
+            fn = "c%d.%s" % (k, c["lang"])
+            open(os.path.join(d, fn), "wb").write(list(c["files"].values())[0])
+            ent.append((k, os.path.join(d, fn + ".dump")))
+        jobs.append((d, [ctx.cppcheck, "--dump", "--quiet", "-j2", "."], ent))
+    for k, c in single:
+        d = os.path.join(root, "s%d" % k)
+        os.makedirs(d)
+        for rel, content in c["files"].items():
+            open(os.path.join(d, rel), "wb").write(content)
+        jobs.append((d, [ctx.cppcheck, "--dump", "--quiet"] + list(c.get("args") or []) + [c["main"]], [(k, os.path.join(d, c["main"] + ".dump"))]))
+    n_viol = 0
+    for cwd, argv, ent in jobs:
+        try:
+            r = subprocess.run(argv, cwd=cwd, stdout=subprocess.PIPE, stderr=subprocess.PIPE, timeout=600)
+            rc = r.returncode
+        except subprocess.TimeoutExpired:
+            rc = -999
+            res.count("cli:timeout")
+        if rc < 0 and rc != -999:
+            res.count("cli:signal")
+        for k, dump in ent:
+            c = cases[k]
+            res.count("cli:origin:" + c["origin"])
+            if not os.path.exists(dump):
+                res.count("cli:no-dump-file")
+                res.case("cli|" + c["name"], False)
+                continue
+            st, problems = c14_dump.check_dump(dump, cd)
+            nt = st["links"] >= 1 and st["ast_edges"] >= 1
+            samp = None
+            if nt and len(res.samples) < 12 and c["origin"] in ("generated", "snippet", "corpus"):
+                samp = dict(tie="cli-dump", case=c["name"], stats=st, problems=len(problems))
+            res.case("cli|" + c["name"] + "|%08x" % zlib.crc32(b"\0".join(c["files"][k] for k in sorted(c["files"]))), nt, samp)
+            res.count("cli:configs", st["configs"]); res.count("cli:tokens", st["tokens"]); res.count("cli:references-resolved", st["refs"])
+            res.count("cli:links", st["links"]); res.count("cli:ast-edges", st["ast_edges"])
+            if st["configs"] == 0:
+                res.count("cli:dump-without-configuration")
+            if not problems:
+                res.traces_validated += 1
+            seen = set()
+            for key, text in problems:
+                ck, _ = classify(key, text, dump)
+                if ck in seen:
+                    continue
+                seen.add(ck)
+                n_viol += 1
+                if n_viol > 40:
+                    continue
+                res.violation("dump of %s (%s): %s: %s" % (c["name"], c["origin"], ck, text[:300]),
+                              dict(kind="cli", name=c["name"], origin=c["origin"], lang=c["lang"], main=c["main"], args=c.get("args") or [],
+                                   files={rel: core.hx(b) for rel, b in c["files"].items()}, problem=ck, detail=text[:1000],
+                                   replay_cmd="./check.py C14 --replay <this file>"), concrete=True, key=ck)
+            try:
+                os.remove(dump)
+            except OSError:
+                pass
+
+
+def mk_case(name, origin, lang, code, args=None, extra=None):
+    main = "a." + lang
+    files = {main: code if isinstance(code, bytes) else code.encode("latin-1", "replace")}
+    for rel, content in (extra or {}).items():
+        files[rel] = content if isinstance(content, bytes) else content.encode("latin-1", "replace")
+    return dict(name=name, origin=origin, lang=lang, files=files, main=main, args=args or [])
+
+
+def cli(ctx, res, thorough):
+    import glob
+    rng = ctx.rng
+    cases = []
+    # corpus: witnesses and regression programs, always first
+    cp = os.path.join(core.VERIF, "corpus", "C14", "cli.json")
+    if os.path.exists(cp):
+        for c in json.load(open(cp)):
+            cases.append(mk_case("corpus:" + c["name"], "corpus", c["lang"], c["code"], c.get("args"), c.get("files")))
+    # repository corpora
+    cfgs = sorted(glob.glob(os.path.join(core.REPO, "test", "cfg", "*.c")) + glob.glob(os.path.join(core.REPO, "test", "cfg", "*.cpp")))
+    if not thorough:
+        small = [f for f in cfgs if os.path.getsize(f) < 25000]
+        cfgs = rng.sample(small, min(4, len(small)))
+    for f in cfgs:
+        base, ext = os.path.splitext(os.path.basename(f))
+        args = ["--library=" + base] if os.path.exists(os.path.join(core.REPO, "cfg", base + ".cfg")) else []
+        cases.append(dict(name="test/cfg/" + os.path.basename(f), origin="test-cfg", lang=ext[1:], files={os.path.basename(f): open(f, "rb").read()},
+                          main=os.path.basename(f), args=args + ["--inline-suppr"]))
+    samples = sorted(glob.glob(os.path.join(core.REPO, "samples", "*", "*.c")) + glob.glob(os.path.join(core.REPO, "samples", "*", "*.cpp")))
+    for f in (samples if thorough else rng.sample(samples, min(8, len(samples)))):
+        ext = os.path.splitext(f)[1][1:]
+        cases.append(mk_case("samples/" + "/".join(f.split(os.sep)[-2:]), "samples", ext, open(f, "rb").read()))
+    sn = snippets()
+    res.extra["unit_test_snippets_available"] = len(sn)
+    pick = rng.sample(sn, min(2500 if thorough else 120, len(sn)))
+    for (f, lang, code) in pick:
+        cases.append(mk_case("snippet:%s:%08x" % (f, zlib.crc32(code.encode("utf-8", "replace"))), "snippet", lang, code))
+    gens = []
+    for k in range(400 if thorough else 40):
+        lang, code = gen_program(rng)
+        gens.append((lang, code))
+        cases.append(mk_case("generated:%d" % k, "generated", lang, code))
+    for k in range(500 if thorough else 50):
+        if rng.random() < 0.5 and pick:
+            _f, lang, code = rng.choice(pick)
+        else:
+            lang, code = rng.choice(gens)
+        cases.append(mk_case("mutated:%d" % k, "mutated", lang, mutate(rng, code)))
+    run_cases(ctx, res, cases, "main")
+    res.extra["cli_cases"] = len(cases)
+
+
 def run(ctx, res):
     thorough = ctx.tier == "thorough"
-    if MODULES:
-        core.prove(ctx, res, MODULES, THEOREMS)
+    core.prove(ctx, res, MODULES, THEOREMS)
+    t_callers(ctx, res)
+    t_writers(ctx, res)
     drv = ctx.driver("drv_c14")
     exe = ctx.harness("c14")
     inprocess(ctx, res, drv, exe, thorough)
+    cli(ctx, res, thorough)
+    if any(not o["ok"] for o in res.obligations) and not any(v["concrete"] and v.get("key") != "raw-writer-config-text" for v in res.violations):
+        search(ctx, res, drv, exe)
+
+
+def search(ctx, res, drv, exe):
+    """an obligation broke and no failing input is known yet: widen the samples (in-process streams and CLI programs)"""
+    sub = core.Result(ctx, res.level)
+    inprocess(ctx, sub, drv, exe, True)
+    cli(ctx, sub, True) if any(o["kind"] == "translation" and not o["ok"] for o in res.obligations) else None
+    res.extra["search_evaluations"] = sub.evaluations
+    for v in sub.violations:
+        if v.get("key") != "raw-writer-config-text":
+            res.violations.append(v)
 
 
 def replay(ctx, res, rp):
+    if rp.get("kind") == "cli":
+        c = dict(name=rp["name"], origin=rp.get("origin", "replay"), lang=rp["lang"], main=rp["main"], args=rp.get("args") or [],
+                 files={rel: core.unhx(h) for rel, h in rp["files"].items()})
+        sub = core.Result(ctx, "other")
+        run_cases(ctx, sub, [c], "replay")
+        for v in sub.violations:
+            print("VIOLATION property=C14 replay=(replayed) %s" % v["what"][:400])
+        print("replay: %d problem(s)" % len(sub.violations))
+        return 1 if sub.violations else 0
     drv = ctx.driver("drv_c14")
     exe = ctx.harness("c14")
     op = rp["op"]
@@ -306,4 +711,17 @@ def replay(ctx, res, rp):
     print("op:    " + op)
     print("impl:  " + (impl[0] if impl else "?"))
     print("model: " + (model[0] if model else "?"))
-    return 1 if impl != model else 0
+    sub = core.Result(ctx, "other")
+    bad = impl != model
+    if impl:
+        k = op.split(" ")[0]
+        if k == "ast":
+            for j, s in enumerate(impl[0].split(" | ")):
+                why = ast_inv(parse_state(s if j == 0 else s[2:]), full=" pa " not in op)
+                if why:
+                    print("VIOLATION property=C14 replay=(replayed) state after call %d: %s" % (j, why)); bad = True; break
+        elif k in ("links", "links2") and impl[0].startswith("ok"):
+            why = links_ok([core.unhx(x).decode("latin-1") for x in op.split(" ")[1:]], impl[0])
+            if why:
+                print("VIOLATION property=C14 replay=(replayed) " + why); bad = True
+    return 1 if bad else 0
